@@ -298,6 +298,8 @@ def search(ctx, reasons):
         run_cases(ctx, gen_cases(ctx, f'search{k}', 160), False, res)
         done += 160
         k += 1
+    from harness import c10_ext
+    c10_ext.run(ctx, res, use_model=False, tag='ext-search')
     return res
 
 
@@ -308,4 +310,10 @@ def replay(ctx, payload):
     else:
         cases = [payload.get('case', payload)]
     cases = [{k: v for k, v in case.items() if k != 'original'} for case in cases]
+    ext = [c for c in cases if c.get('kind') == 'ext']
+    if ext:
+        from harness import c10_ext
+        res = c10_ext.run_cases(ctx, ext, core.Result())
+        rest = [c for c in cases if c.get('kind') != 'ext']
+        return run_cases(ctx, rest, True, res) if rest else res
     return run_cases(ctx, cases, True)
